@@ -210,7 +210,7 @@ func runC09(c *engine.Ctx) {
 		if h == 1 {
 			v1 = vh
 		} else if d, cp := gen.DiffClass(v1, vh, "Pipeline", "Pipeline"); d != "" {
-			c.Fail("C09.diverged", cls+" not-idempotent "+cp, "hop %d (%s; chain %v) differs from hop 1: the normal form is not a fixpoint: %s\nmarshalled by the hop:\n%s\noriginal document (%s):\n%s", h, f, append(hopFmts, f), d, truncate(string(data), 1200), format, truncate(string(src), 1200))
+			c.Fail("C09.diverged", cls+" not-idempotent "+refineClass(cp, d), "hop %d (%s; chain %v) differs from hop 1: the normal form is not a fixpoint: %s\nmarshalled by the hop:\n%s\noriginal document (%s):\n%s", h, f, append(hopFmts, f), d, truncate(string(data), 1200), format, truncate(string(src), 1200))
 		}
 		if d, cp := gen.DiffClass(v0m, maskSources(vh), "Pipeline", "Pipeline"); d != "" {
 			c.Fail("C09.diverged", cls+" "+refineClass(cp, d), "after hop %d (%s; chain %v) the replica differs from hop 0 (hop0 vs hop%d): %s\nmarshalled by the hop:\n%s\noriginal document (%s):\n%s", h, f, append(hopFmts, f), h, d, truncate(string(data), 1200), format, truncate(string(src), 1200))
